@@ -4,3 +4,5 @@ MANAGER_ALL = [M + "Module.send_message"] + [M + "MessageManager." + f for f in 
     "add_subscription", "remove_subscription", "remove_module", "send_client_close", "send_client_info", "send_message",
     "forward_message", "send_failed_message", "send_to_loggers", "send_ack", "assign_module_id", "connect_module",
     "read_message", "process_message", "send_timing_message", "send_traffic", "send_active_clients", "run")]
+C = "pyrtma.client:"
+CLIENT_SIDECARS = ["contracts.manager_model", "contracts.manager_contracts", "contracts.client_contracts"]
